@@ -2,7 +2,7 @@
     Depends on Model/ only, so it builds (and the correspondence check runs) even when a
     proof obligation of some property is broken. *)
 From Coq Require Import List ZArith NArith Bool.
-From CqlProxy Require Import Lib.Val Lib.Util Model.Config Model.LB Model.Codec Model.Retry Model.Frame Model.Override Model.Gate Model.Streams Model.Classify Model.Handled Model.SysTables Model.OneReply Model.Sessions Model.Prepared Model.Events Model.Topology Model.Hostile Model.Astra.
+From CqlProxy Require Import Lib.Val Lib.Util Model.Config Model.LB Model.Codec Model.Retry Model.Frame Model.Override Model.Gate Model.Streams Model.Classify Model.Handled Model.SysTables Model.OneReply Model.Sessions Model.Prepared Model.Events Model.Topology Model.Hostile Model.Astra Model.Core Model.CoreDrive.
 Import ListNotations.
 Local Open Scope N_scope.
 
@@ -10,8 +10,8 @@ Definition run_prop (prop : bytes) (input : val) : val :=
   if bytes_eqb prop (str "C20") then run_c20 input
   else if bytes_eqb prop (str "C15") then run_c15 input
   else if bytes_eqb prop (str "C11") then run_c11 input
-  else if bytes_eqb prop (str "C05") then run_c05 input
-  else if bytes_eqb prop (str "C04") then run_c05 input
+  else if bytes_eqb prop (str "C05") then run_c05_both input
+  else if bytes_eqb prop (str "C04") then run_c05_both input
   else if bytes_eqb prop (str "C03") then (if Nat.eqb (length (vL input)) 7 then run_c12 input else run_c03 input)
   else if bytes_eqb prop (str "C12") then run_c12 input
   else if bytes_eqb prop (str "C13") then run_c13 input
